@@ -548,3 +548,37 @@ def composite_replay(cls_name):
 
 for _u in COMPOSITES:
     _u.replay = composite_replay(_u.name[len('layout['):].split(';')[0])
+
+
+# ------------------------------------------------------------------------------ reverse_complement (opaque in the TCHIC unit above)
+def revcomp_bounded(tier, seed):
+    import itertools
+    import json
+    import os
+    from pyvc.contract import import_real
+    fn = import_real('singlecellmultiomics/utils/sequtils.py', 'reverse_complement')
+    comp = {'A': 'T', 'C': 'G', 'G': 'C', 'T': 'A', 'N': 'N'}
+    n = 0
+    for L in range(0, 6):
+        for t in itertools.product('ACGTN', repeat=L):
+            s = ''.join(t)
+            want = ''.join(comp[c] for c in reversed(s))
+            try:
+                got = fn(s)
+            except Exception as e:      # noqa: BLE001
+                got = '%s: %s' % (type(e).__name__, e)
+            n += 1
+            if got != want:
+                out = os.environ.get('VERIF_OUT', '.')
+                os.makedirs(os.path.join(out, 'replays', PROP), exist_ok=True)
+                path = 'replays/%s/reverse_complement.json' % PROP
+                json.dump({'property': PROP, 'obligation': '%s/reverse_complement' % PROP,
+                           'replay': {'status': 'confirmed', 'input': s, 'observed': got, 'expected': want}},
+                          open(os.path.join(out, path), 'w'), indent=1)
+                return {'result': 'violation', 'replay': path, 'confirmed': True, 'strings': n}
+    return {'result': 'clean', 'strings': n}
+
+
+from pyvc.units import Bounded      # noqa: E402
+UNITS.append(Bounded(PROP, 'reverse_complement[every string over ACGTN up to 5 bases]', revcomp_bounded,
+                     'all 3906 strings over ACGTN of length 0..5', 'exhaustive run of the real function against the definition'))
